@@ -1189,6 +1189,8 @@ def run(res):
         orphans(r, widen=widen)
     run_phases(res, [('mem', lambda r: correspond(r, n)), ('traces', traces), ('locks', locks),
                      ('hops', lambda r: hops(r, nh)), ('real', real_processes)])
+    # the two findings of the pinned tree that fire on every run go last: anything else is reported first
+    res.alarms.sort(key=lambda a: a['signature'] in (SIG_RECYCLED, SIG_FALSY_LOCK))
     if res.tier != 'quick':
         rng = random.Random(res.seed * 13 + 1515)
         cases = [gen_case(rng, real=True) for _ in range(200)]
